@@ -675,6 +675,17 @@ let handle (line : string) : string =
   | "normh" :: proto :: su :: rest -> run_normh proto su rest
   | "qload" :: rest -> run_qload (match rest with [h] -> h | _ -> "")
   | "qloads" :: rest -> run_qloads rest
+  | "memofree" :: pd :: su :: rest ->
+    (* C11: for each Decode call of the stream (one pickle per argument, decoded through one
+       decoder), does it execute no memo opcode (AloneFacts.memo_freeb, the hypothesis of
+       C11_memo_of_earlier_pickles_is_irrelevant / C11_earlier_values_not_altered)? *)
+    let cfg = cfg_of pd su "0" in
+    let st = ref init_state in
+    String.concat " " (List.map (fun h ->
+        let inp = bytes_of_hex h in
+        let f = memo_freeb cfg !st inp and g = self_containedb cfg !st inp in
+        (match decode cfg !st inp with ((_, st'), _) -> st := st');
+        b01 f ^ b01 g) rest)
   | "decchunk" :: pd :: su :: _ :: sched :: rest -> run_dec_chunk pd su sched (match rest with [h] -> h | _ -> "")
   | "prog" :: proto :: su :: rest -> run_prog proto su rest
   | "pyload" :: proto :: su :: rest -> run_pyload proto su rest
